@@ -232,4 +232,211 @@ noncomputable def physB (I : Interp K) (reg : Registry) (Γ : VarEnv) (ρ : Nat 
   | .other _ => none
 end
 
+/-! ### consequences of the laws -/
+namespace Interp
+variable (I : Interp K)
+
+theorem φ_ne (s : Scale) : I.φ s ≠ 0 := ne_of_gt (I.φ_pos s)
+
+theorem φ_norm (s : Scale) : I.φ (PMap.norm s) = I.φ s := I.φ_congr (PMap.norm_equiv s)
+
+theorem φ_neg (s : Scale) : I.φ (PMap.neg s) = (I.φ s)⁻¹ := by
+  have h : I.φ (PMap.add (PMap.neg s) s) = 1 := by
+    rw [← I.φ_nil]; apply I.φ_congr
+    intro k; simp only [PMap.get_add, PMap.get_neg, PMap.get_nil]; grind
+  rw [I.φ_add] at h
+  exact eq_inv_of_mul_eq_one_left h
+
+theorem φ_sub (a b : Scale) : I.φ (PMap.sub a b) = I.φ a / I.φ b := by
+  rw [PMap.sub, I.φ_add, I.φ_neg, div_eq_mul_inv]
+
+/-- two scales with the same meaning as a difference that is `[]` -/
+theorem φ_eq_of_sub_nil {a b : Scale} (h : PMap.Equiv (PMap.sub a b) []) : I.φ a = I.φ b := by
+  apply I.φ_congr
+  intro k; have := h k; simp only [PMap.get_sub, PMap.get_nil] at this; grind
+
+end Interp
+
+/-! ### SI scale and dimension of products, quotients, powers of units -/
+section units
+variable (I : Interp K) (reg : Registry)
+
+theorem φ_scaleOf (c : Container) : I.φ (scaleOf reg c) = I.φ (toRoot reg c).1 := I.φ_norm _
+
+theorem φ_scaleOf_congr {a b : Container} (h : PMap.Equiv a b) : I.φ (scaleOf reg a) = I.φ (scaleOf reg b) := by
+  rw [φ_scaleOf, φ_scaleOf]; exact I.φ_congr (toRoot_congr reg h).1
+
+theorem φ_scaleOf_mulC (a b : Container) :
+    I.φ (scaleOf reg (mulC a b)) = I.φ (scaleOf reg a) * I.φ (scaleOf reg b) := by
+  rw [mulC, φ_scaleOf_congr I reg (PMap.norm_equiv _), φ_scaleOf, I.φ_congr (toRoot_add reg a b).1, I.φ_add,
+    φ_scaleOf, φ_scaleOf]
+
+theorem φ_scaleOf_powC (a : Container) (q : Rat) :
+    I.φ (scaleOf reg (powC a q)) = I.φ (PMap.smul q (scaleOf reg a)) := by
+  rw [powC, φ_scaleOf_congr I reg (PMap.norm_equiv _), φ_scaleOf, I.φ_congr (toRoot_smul reg q a).1]
+  exact I.φ_congr (PMap.smul_congr q (PMap.norm_equiv _).symm)
+
+theorem φ_scaleOf_divC (a b : Container) :
+    I.φ (scaleOf reg (divC a b)) = I.φ (scaleOf reg a) / I.φ (scaleOf reg b) := by
+  have h1 : I.φ (scaleOf reg (divC a b)) = I.φ (scaleOf reg (PMap.add a (PMap.smul (-1) b))) :=
+    φ_scaleOf_congr I reg (PMap.norm_equiv _)
+  rw [h1, φ_scaleOf, I.φ_congr (toRoot_add reg a _).1, I.φ_add, I.φ_congr (toRoot_smul reg (-1) b).1]
+  have h2 : I.φ (PMap.smul (-1) (toRoot reg b).1) = (I.φ (toRoot reg b).1)⁻¹ := I.φ_neg _
+  rw [h2, φ_scaleOf, φ_scaleOf, div_eq_mul_inv]
+
+theorem φ_scaleOf_nil : I.φ (scaleOf reg []) = 1 := by
+  have h := (toRoot_smul reg 0 []).1
+  rw [φ_scaleOf]
+  have : (PMap.smul 0 ([] : Container)) = [] := rfl
+  rw [this] at h
+  rw [I.φ_congr h, ← I.φ_nil]
+  apply I.φ_congr
+  intro k; simp only [PMap.get_smul, PMap.get_nil]; grind
+
+end units
+
+section dims
+variable (reg : Registry)
+open PMap
+
+theorem dimsOf_congr {a b : Container} (h : a ≃ b) : dimsOf reg a ≃ dimsOf reg b :=
+  (dimsOf_equiv reg a).trans ((dimsOfRoot_congr reg (toRoot_congr reg h).2).trans (dimsOf_equiv reg b).symm)
+
+theorem dimsOf_mulC (a b : Container) : dimsOf reg (mulC a b) ≃ add (dimsOf reg a) (dimsOf reg b) := by
+  refine (dimsOf_congr reg (norm_equiv _)).trans ?_
+  refine (dimsOf_equiv reg _).trans ?_
+  refine (dimsOfRoot_congr reg (toRoot_add reg a b).2).trans ?_
+  refine (dimsOfRoot_add reg _ _).trans ?_
+  exact add_congr (dimsOf_equiv reg a).symm (dimsOf_equiv reg b).symm
+
+theorem dimsOf_smul (q : Rat) (a : Container) : dimsOf reg (smul q a) ≃ smul q (dimsOf reg a) := by
+  refine (dimsOf_equiv reg _).trans ?_
+  refine (dimsOfRoot_congr reg (toRoot_smul reg q a).2).trans ?_
+  refine (dimsOfRoot_smul reg q _).trans ?_
+  exact smul_congr q (dimsOf_equiv reg a).symm
+
+theorem dimsOf_powC (a : Container) (q : Rat) : dimsOf reg (powC a q) ≃ smul q (dimsOf reg a) :=
+  (dimsOf_congr reg (norm_equiv _)).trans (dimsOf_smul reg q a)
+
+theorem dimsOf_divC (a b : Container) : dimsOf reg (divC a b) ≃ sub (dimsOf reg a) (dimsOf reg b) := by
+  refine (dimsOf_congr reg (norm_equiv _)).trans ?_
+  refine (dimsOf_equiv reg _).trans ?_
+  refine (dimsOfRoot_congr reg (toRoot_add reg a _).2).trans ?_
+  refine (dimsOfRoot_add reg _ _).trans ?_
+  refine add_congr (dimsOf_equiv reg a).symm ?_
+  refine (dimsOf_equiv reg _).symm.trans ?_
+  exact dimsOf_smul reg (-1) b
+
+theorem dimsOf_nil : dimsOf reg [] ≃ [] := by
+  have h := dimsOf_smul reg 0 []
+  have e : (smul 0 ([] : Container)) = [] := rfl
+  rw [e] at h
+  refine h.trans ?_
+  intro k; simp only [get_smul, get_nil]; grind
+
+end dims
+
+/-! ### order facts -/
+
+/-- a common positive factor does not change a comparison -/
+theorem relHolds_scale (r : Rel) (a b c : K) (hc : 0 < c) : relHolds r (a * c) (b * c) = relHolds r a b := by
+  cases r <;> simp only [relHolds]
+  · exact decide_eq_decide.mpr ⟨fun h => mul_right_cancel₀ (ne_of_gt hc) h, fun h => by rw [h]⟩
+  · exact decide_eq_decide.mpr (not_congr ⟨fun h => mul_right_cancel₀ (ne_of_gt hc) h, fun h => by rw [h]⟩)
+  · exact decide_eq_decide.mpr (mul_lt_mul_iff_left₀ hc)
+  · exact decide_eq_decide.mpr (mul_le_mul_iff_left₀ hc)
+  · exact decide_eq_decide.mpr (mul_lt_mul_iff_left₀ hc)
+  · exact decide_eq_decide.mpr (mul_le_mul_iff_left₀ hc)
+
+theorem cast_ratPowInt (x : Rat) (n : Int) : ((ratPowInt x n : Rat) : K) = (x : K) ^ n := by
+  unfold ratPowInt
+  split
+  · rename_i h
+    rw [Rat.cast_pow]
+    conv_rhs => rw [← Int.toNat_of_nonneg h]
+    exact (zpow_natCast _ _).symm
+  · rename_i h
+    have hn : 0 ≤ -n := by omega
+    rw [Rat.cast_pow, Rat.cast_div, Rat.cast_one, one_div]
+    have : n = -((-n).toNat : Int) := by rw [Int.toNat_of_nonneg hn]; omega
+    conv_rhs => rw [this]
+    rw [zpow_neg, zpow_natCast, inv_pow]
+
+/-- `float(expr)` on a closed numeric expression is what plain arithmetic computes -/
+theorem evalClosed_evalNum (I : Interp K) (ρ : Nat → K) (δ : Nat → Nat → K) :
+    ∀ (t : E) (q : Rat), Convert.evalClosed t = some (some q) → evalNum I ρ δ t = (q : K) := by
+  intro t
+  induction t with
+  | qty v u => intro q h; simp only [Convert.evalClosed, Option.some.injEq] at h; subst h; simp only [evalNum]
+  | cf s u =>
+      intro q h
+      simp only [Convert.evalClosed] at h
+      split at h
+      · rename_i hs; simp only [Option.some.injEq] at h; subst h; subst hs
+        simp only [evalNum, I.φ_nil, Rat.cast_one]
+      · simp at h
+  | int n => intro q h; simp only [Convert.evalClosed, Option.some.injEq] at h; subst h; simp only [evalNum, Rat.cast_intCast]
+  | rat v => intro q h; simp only [Convert.evalClosed, Option.some.injEq] at h; subst h; simp only [evalNum]
+  | flt v => intro q h; simp only [Convert.evalClosed, Option.some.injEq] at h; subst h; simp only [evalNum]
+  | mul a b iha ihb =>
+      intro q h
+      simp only [Convert.evalClosed] at h
+      split at h <;> simp only [Option.some.injEq, reduceCtorEq] at h
+      rename_i x y hx hy
+      subst h
+      simp only [evalNum, iha x hx, ihb y hy, Rat.cast_mul]
+  | add a b iha ihb =>
+      intro q h
+      simp only [Convert.evalClosed] at h
+      split at h <;> simp only [Option.some.injEq, reduceCtorEq] at h
+      rename_i x y hx hy
+      subst h
+      simp only [evalNum, iha x hx, ihb y hy, Rat.cast_add]
+  | pow a b iha ihb =>
+      intro q h
+      simp only [Convert.evalClosed] at h
+      split at h <;> try (simp only [Option.some.injEq, reduceCtorEq] at h)
+      rename_i x y hx hy
+      split at h <;> simp only [Option.some.injEq, reduceCtorEq] at h
+      rename_i hc
+      subst h
+      obtain ⟨hden, hz⟩ := hc
+      have hy' : y = ((y.num : Int) : Rat) := by
+        have := Rat.num_div_den y
+        rw [hden] at this; simpa using this.symm
+      simp only [evalNum, hy, iha x hx, cast_ratPowInt]
+      rw [hy']
+      have hz' : ¬ ((x : K) = 0 ∧ y.num < 0) := by
+        intro ⟨h0, hn⟩
+        apply hz
+        refine ⟨by exact_mod_cast h0, ?_⟩
+        exact Rat.num_neg.mp hn
+      simpa using I.pw_int (x : K) y.num hz'
+  | abs a iha =>
+      intro q h
+      simp only [Convert.evalClosed] at h
+      split at h
+      · rename_i x hx
+        simp only [Option.some.injEq] at h; subst h
+        simp only [evalNum, iha x hx]
+        split
+        · rename_i hneg
+          have : (x : K) < 0 := by exact_mod_cast hneg
+          rw [abs_of_neg this, Rat.cast_neg]
+        · rename_i hnn
+          have : (0 : K) ≤ (x : K) := by exact_mod_cast (not_lt.mp hnn)
+          rw [abs_of_nonneg this]
+      · rename_i r hr
+        exfalso
+        cases r with
+        | none => simp at h
+        | some o =>
+            cases o with
+            | none => simp at h
+            | some v => exact hr v rfl
+  | floor a _ => intro q h; simp only [Convert.evalClosed] at h; split at h <;> simp at h
+  | ceil a _ => intro q h; simp only [Convert.evalClosed] at h; split at h <;> simp at h
+  | fn1 f a _ => intro q h; simp only [Convert.evalClosed] at h; split at h <;> simp at h
+  | _ => intro q h; simp [Convert.evalClosed] at h
+
 end Sem
